@@ -359,7 +359,7 @@ impl<'p, 'c, 'cc, V: SimVdaf<VK>, const VK: usize> WorldB<'p, 'c, 'cc, V, VK> {
         match &self.parties[ex][who].stage {
             Stage::LeaderWait(sb) => {
                 let sb = sb.clone();
-                let st = mon_decode(self.ctx, "VerifyState", &sb, sb.len() + 4096, |b| v.dec_state(who, b), |s| V::enc_state(s), |s| V::state_len_hint(s));
+                let st = mon_decode(self.ctx, "VerifyState", &sb, 256, |b| v.dec_state(who, b), |s| V::enc_state(s), |s| V::state_len_hint(s));
                 if st.is_none() {
                     self.ctx.fail(Violation::new("C12.restart", "state|undecodable", "stored leader verify state does not decode"));
                 }
@@ -367,7 +367,7 @@ impl<'p, 'c, 'cc, V: SimVdaf<VK>, const VK: usize> WorldB<'p, 'c, 'cc, V, VK> {
             }
             Stage::Cont(cb) => {
                 let cb = cb.clone();
-                let c = mon_decode(self.ctx, "PingPongContinuation", &cb, cb.len() + 4096, |b| v.dec_cont(who, b), |c| V::enc_cont(c), |c| V::cont_len_hint(c))?;
+                let c = mon_decode(self.ctx, "PingPongContinuation", &cb, 256, |b| v.dec_cont(who, b), |c| V::enc_cont(c), |c| V::cont_len_hint(c))?;
                 match guard("PingPongContinuation::evaluate", || c.evaluate(&self.plan.ctx.0, v)) {
                     Ok(Ok(PingPongState::Continued(cont))) => Some(cont.verifier_state),
                     Ok(_) => None,
@@ -671,7 +671,7 @@ impl<'p, 'c, 'cc, V: SimVdaf<VK>, const VK: usize> WorldB<'p, 'c, 'cc, V, VK> {
             _ => return,
         };
         self.ctx.probe("restart_with_continuation");
-        let Some(c) = mon_decode(self.ctx, "PingPongContinuation", &cb, cb.len() + 4096, |b| v.dec_cont(party, b), |c| V::enc_cont(c), |c| V::cont_len_hint(c)) else {
+        let Some(c) = mon_decode(self.ctx, "PingPongContinuation", &cb, 256, |b| v.dec_cont(party, b), |c| V::enc_cont(c), |c| V::cont_len_hint(c)) else {
             self.ctx.fail(Violation::new("C12.restart", "cont|undecodable", "a stored continuation does not decode"));
             return;
         };
@@ -717,12 +717,12 @@ impl<'p, 'c, 'cc, V: SimVdaf<VK>, const VK: usize> WorldB<'p, 'c, 'cc, V, VK> {
             Stage::LeaderWait(sb) => {
                 let mut b = sb.clone();
                 raw_mut(&mut b, m);
-                let _ = mon_decode(self.ctx, "VerifyState", &b, b.len() + 4096, |x| v.dec_state(party, x), |s| V::enc_state(s), |s| V::state_len_hint(s));
+                let _ = mon_decode(self.ctx, "VerifyState", &b, 256, |x| v.dec_state(party, x), |s| V::enc_state(s), |s| V::state_len_hint(s));
             }
             Stage::Cont(cb) => {
                 let mut b = cb.clone();
                 raw_mut(&mut b, m);
-                if let Some(c) = mon_decode(self.ctx, "PingPongContinuation", &b, b.len() + 4096, |x| v.dec_cont(party, x), |c| V::enc_cont(c), |c| V::cont_len_hint(c)) {
+                if let Some(c) = mon_decode(self.ctx, "PingPongContinuation", &b, 256, |x| v.dec_cont(party, x), |c| V::enc_cont(c), |c| V::cont_len_hint(c)) {
                     // a corrupted continuation that decodes must still evaluate without panicking
                     if let Err(pv) = guard("PingPongContinuation::evaluate(corrupted store)", || c.evaluate(&self.plan.ctx.0, v).map(|_| ())) {
                         self.ctx.fail(pv);
